@@ -83,7 +83,16 @@ static void arObs() {
 	out += "],\"da\":["; { int n = 0; for (const int& v : g_da) { if (n++) out += ','; i(v); } }	// iteration
 	out += "],\"dai\":["; { for (unsigned n = 0; n < cda.count(); ++n) { if (n) out += ','; i(cda[n]); } }	// indexing
 	out += "],\"db\":["; { int n = 0; for (auto it = g_db.cbegin(); it != g_db.cend(); ++it) { if (n++) out += ','; i(*it); } }
-	out += "],"; kv("cnt", g_da.count()); kv("sempty", g_sa.empty() ? 1 : 0); kv("dempty", g_da.empty() ? 1 : 0, false);
+	out += "],"; kv("cnt", g_da.count()); kv("sempty", g_sa.empty() ? 1 : 0); kv("dempty", g_da.empty() ? 1 : 0);
+	// the other access forms must agree with the ones above: const / non-const indexing of both arrays, const iteration of the fixed one
+	{
+		const StaticArrayT<int, VC_CAP>& csa = g_sa;
+		int ok = 1; unsigned n = 0;
+		for (const int& v : csa) { if (n >= VC_CAP || v != g_sa[n] || csa[n] != v) ok = 0; ++n; }
+		if (n != VC_CAP) ok = 0;
+		for (unsigned k = 0; k < g_da.count(); ++k) if (g_da[k] != cda[k]) ok = 0;
+		kv("forms", ok, false);
+	}
 }
 
 // ---- bit stream
